@@ -30,9 +30,9 @@ Init ==
     /\ chan = [c \in Chan |-> [d \in Denom |-> [out |-> 0, sent |-> 0]]]     \* in flight: escrowed, not yet in the books
     /\ held = [d \in Denom |-> SumF(Chan, [c \in Chan |-> pre[c][d]])]
     /\ ubal = [u \in User |-> [d \in Denom |-> IF u = "u1" /\ c0.legacy THEN -1 ELSE 0]]
-    /\ defaultGas = IF c0.legacy THEN -1 ELSE c0.defaultGas
-    /\ admin = IF c0.legacy THEN "legacy" ELSE "gov"
-    /\ allow = IF c0.legacy THEN [listed |-> FALSE, gas |-> -1] ELSE [listed |-> c0.listed, gas |-> c0.gas]
+    /\ defaultGas = IF c0.legacy /\ ~c0.v2 THEN -1 ELSE c0.defaultGas
+    /\ admin = IF c0.legacy /\ ~c0.v2 THEN "legacy" ELSE "gov"
+    /\ allow = IF c0.legacy /\ ~c0.v2 THEN [listed |-> FALSE, gas |-> -1] ELSE [listed |-> c0.listed, gas |-> c0.gas]
     /\ tokFails = FALSE /\ legacy = c0.legacy
     /\ pkts = IF c0.legacy THEN <<[ch |-> "ch1", denom |-> "nat", amt |-> 1, sender |-> "u1", done |-> FALSE],
                                    [ch |-> "ch1", denom |-> "tok", amt |-> 1, sender |-> "u1", done |-> FALSE]>> ELSE <<>>
@@ -40,9 +40,9 @@ Init ==
     /\ credit = pre /\ ident = Zero /\ pktMax = PktMaxC
     /\ ev = [act |-> "reset", by |-> "env", ok |-> TRUE]
     /\ sched = <<>>
-    /\ cfgv = [channels |-> SetToSeq(Chan), defaultGas |-> IF c0.legacy THEN 100 ELSE c0.defaultGas,
-               allow |-> IF c0.legacy THEN <<[gas |-> -1]>> ELSE IF c0.listed THEN <<[gas |-> c0.gas]>> ELSE <<>>,
-               legacy |-> IF c0.legacy THEN "v1" ELSE "none", scale |-> 0,
+    /\ cfgv = [channels |-> SetToSeq(Chan), defaultGas |-> IF c0.legacy /\ ~c0.v2 THEN 100 ELSE c0.defaultGas,
+               allow |-> IF c0.legacy /\ ~c0.v2 THEN <<[gas |-> -1]>> ELSE IF c0.listed THEN <<[gas |-> c0.gas]>> ELSE <<>>,
+               legacy |-> IF c0.legacy THEN (IF c0.v2 THEN "v2" ELSE "v1") ELSE "none", scale |-> 0,
                pre |-> IF c0.legacy THEN <<[act |-> "transfer", by |-> "u1", args |-> [denom |-> "nat", ch |-> "ch1", amt |-> 1, to |-> "remote1"]],
                                             [act |-> "transfer", by |-> "u1", args |-> [denom |-> "tok", ch |-> "ch1", amt |-> 1, to |-> "remote1"]]>>
                        ELSE <<>>]
@@ -166,12 +166,13 @@ A_C18 == [][C18_AllowMonotone /\ C18_GovOnly /\ C18_GovExact /\ C18_MigrateFromL
             /\ C18_TransferGate /\ C18_PayoutGas]_vars
 
 \* ------------------------------------------------------------------ constants for the .cfg files
-Cfg(dg, l, g, lg) == [defaultGas |-> dg, listed |-> l, gas |-> g, legacy |-> lg]
-InitQ == {Cfg(-1, TRUE, 200, FALSE), Cfg(100, FALSE, -1, FALSE), Cfg(-1, FALSE, -1, TRUE)}
+Cfg(dg, l, g, lg) == [defaultGas |-> dg, listed |-> l, gas |-> g, legacy |-> lg, v2 |-> FALSE]
+CfgV2(dg, l, g) == [defaultGas |-> dg, listed |-> l, gas |-> g, legacy |-> TRUE, v2 |-> TRUE]
+InitQ == {Cfg(-1, TRUE, 200, FALSE), Cfg(100, FALSE, -1, FALSE), Cfg(-1, FALSE, -1, TRUE), CfgV2(-1, TRUE, 200)}
 InitAll == {Cfg(-1, TRUE, 200, FALSE), Cfg(-1, TRUE, -1, FALSE), Cfg(100, FALSE, -1, FALSE), Cfg(100, TRUE, 200, FALSE),
-            Cfg(-1, FALSE, -1, FALSE), Cfg(-1, FALSE, -1, TRUE)}
+            Cfg(-1, FALSE, -1, FALSE), Cfg(-1, FALSE, -1, TRUE), CfgV2(-1, TRUE, 200), CfgV2(100, FALSE, -1)}
 InitAllNoLegacy == {c \in InitAll : ~c.legacy}
-InitLegacy == {Cfg(-1, FALSE, -1, TRUE)}
+InitLegacy == {Cfg(-1, FALSE, -1, TRUE), CfgV2(-1, TRUE, 200), CfgV2(100, FALSE, -1)}
 InitTok == {Cfg(-1, TRUE, 200, FALSE), Cfg(100, FALSE, -1, FALSE)}
 GasesQ == {-1, 100, 300}
 GasesS == {-1, 100}
